@@ -36,6 +36,12 @@ func init() {
 
 // engineNames reads the registered filter / tag / block names by reflection.
 func engineNames(e *liquid.Engine) (filters, tags, blocks []string) {
+	// the tables are unexported: whatever a refactoring turns them into, reading them must not bring the check down
+	defer func() {
+		if recover() != nil {
+			filters, tags, blocks = nil, nil, nil
+		}
+	}()
 	cfg := reflect.ValueOf(e).Elem().FieldByName("cfg")
 	var find func(v reflect.Value, name string, depth int) reflect.Value
 	find = func(v reflect.Value, name string, depth int) reflect.Value {
@@ -68,6 +74,30 @@ func engineNames(e *liquid.Engine) (filters, tags, blocks []string) {
 
 // filterArity returns the number of declared parameters after the receiver (-1 unknown).
 func filterArity(e *liquid.Engine, name string) int {
+	fv := filterFunc(e, name)
+	if !fv.IsValid() {
+		return -1
+	}
+	if fv.Type().IsVariadic() {
+		return 3
+	}
+	return fv.Type().NumIn() - 1
+}
+
+// filterVariadic reports whether the registered filter takes any number of arguments.
+func filterVariadic(e *liquid.Engine, name string) bool {
+	fv := filterFunc(e, name)
+	return fv.IsValid() && fv.Type().IsVariadic()
+}
+
+// filterFunc finds the function registered under name by reflection over the engine's tables (an invalid Value when
+// the tables are not laid out as expected: callers then leave the filter out).
+func filterFunc(e *liquid.Engine, name string) (fn reflect.Value) {
+	defer func() {
+		if recover() != nil {
+			fn = reflect.Value{}
+		}
+	}()
 	cfg := reflect.ValueOf(e).Elem().FieldByName("cfg")
 	var find func(v reflect.Value, depth int) reflect.Value
 	find = func(v reflect.Value, depth int) reflect.Value {
@@ -85,23 +115,20 @@ func filterArity(e *liquid.Engine, name string) int {
 		return reflect.Value{}
 	}
 	m := find(cfg, 0)
-	if !m.IsValid() {
-		return -1
+	if !m.IsValid() || m.Kind() != reflect.Map || m.Type().Key().Kind() != reflect.String {
+		return reflect.Value{}
 	}
 	fv := m.MapIndex(reflect.ValueOf(name))
 	if !fv.IsValid() {
-		return -1
+		return reflect.Value{}
 	}
 	if fv.Kind() == reflect.Interface {
 		fv = fv.Elem()
 	}
 	if fv.Kind() != reflect.Func {
-		return -1
+		return reflect.Value{}
 	}
-	if fv.Type().IsVariadic() {
-		return 3
-	}
-	return fv.Type().NumIn() - 1
+	return fv
 }
 
 // StaticFilters is the list of standard filters this harness knows about; the
@@ -153,8 +180,9 @@ func stepBudget(src string, maxColl int) int64 {
 }
 
 type c01 struct {
-	c *core.Ctx
-	e *liquid.Engine
+	c    *core.Ctx
+	e    *liquid.Engine
+	runs int
 }
 
 // judge applies the C01 oracle to one result.
@@ -185,6 +213,14 @@ func (x *c01) run(kind, keyHint, src string, b map[string]any, maxColl int, bdes
 	x.c.ObsMax("max:steps_per_case", verifhook.Total())
 	verifhook.SetBudget(0)
 	x.judge(kind, keyHint, src, bdesc, r)
+	// whatever the engine has been through (failed includes among it), registering a source and including it ends
+	if x.runs++; x.runs%509 == 0 {
+		name := fmt.Sprintf("late-%d.html", x.runs%7)
+		_, pr := core.ParseCache(x.e, "[late {{ x }}]", name, 1)
+		x.judge("register-after-history", "", "ParseTemplateAndCache(\"[late {{ x }}]\", \""+name+"\")", bdesc, pr)
+		x.judge("include-after-history", "", "{% include '"+name+"' %}", bdesc, core.Run(x.e, "{% include '"+name+"' %}{% include 'never-there.html' %}", b))
+		x.c.Obs("registrations_after_history", 1)
+	}
 }
 
 func runC01(c *core.Ctx) {
@@ -419,6 +455,10 @@ func (x *c01) hostile() {
 	}
 	// include cycles: must end in an error, not in stack exhaustion
 	inject = append(inject, "{% include 'self.html' %}", "a{% include 'p.html' %}b", "{% xfile self.html %}", "{% for i in (1..3) %}{% include 'self.html' %}{% endfor %}", "{% capture c %}{% include 'q.html' %}{% endcapture %}{{ c | size }}", "{% xbfile self.html %}{% endxbfile %}")
+	// the cycle statement in every shape: values that are not text, a group without values, stray separators
+	for _, a := range []string{"1, 2", "'g': 'a', true", "nil", "\"g\":", "'a':", ": 'a'", "'a',", ",", "x", "x: 'a', 'b'", "'g': 1", "1.5", "'a' 'b'", "'a', 'b':", "(1..2)", "'a' | upcase", "a[0]", "'g': 'a', 'b', nil, 2"} {
+		inject = append(inject, "{% for i in (1..3) %}{% cycle "+a+" %}{% endfor %}", "{% tablerow i in (1..2) %}{% cycle "+a+" %}{% endtablerow %}", "{% cycle "+a+" %}")
+	}
 	// depth: a filter evaluates the filter before it, and compiling and rendering recurse once per block level; a goroutine
 	// stack that outgrows the runtime's limit ends the process, which no recover can prevent. The sizes are the ones at
 	// which that happened (3 million filters, 800000 blocks) and ones just around any sensible limit.
